@@ -1,4 +1,5 @@
 import QclibModel.Proofs.QrFullSweep
+import QclibModel.Proofs.QrFullLocate
 import Mathlib.LinearAlgebra.Matrix.Block
 /-
   C02 / QR — the residual `gate` left by the sweep on a UNITARY input, and how `_get_row_col`
@@ -53,7 +54,7 @@ theorem final_unitary_diag (U : Mat N) (hU : Uᴴ * U = 1) (h : SweepOk (pairs N
   have h3 : x = 1 := by nlinarith
   rw [h3]; simp
 
-/-! ### `_get_row_col` -/
+/-! ### `_get_row_col` BEFORE the repair 9d72fec (`getRowColOld`: no default, `none` = the code raised) -/
 
 /-- the scan order of `_get_row_col`: `for row_idx in range(N): for col_idx in range(row_idx)`;
 entries are `(row, col)`. -/
@@ -72,7 +73,7 @@ open Classical in
 /-- `_get_row_col`'s search: the LAST below-diagonal position (in scan order) whose entry is
 `!= 0` and `!= 1`; `none` when there is none (Python: `col`, `row` stay unbound and
 `_row_and_col_qubits(col, n_qubits, row)` raises `UnboundLocalError`).  Returns `(row, col)`. -/
-noncomputable def getRowCol (G : Mat N) : Option (Fin N × Fin N) :=
+noncomputable def getRowColOld (G : Mat N) : Option (Fin N × Fin N) :=
   ((scanOrder N).filter (fun p => decide (G p.1 p.2 ≠ 0 ∧ G p.1 p.2 ≠ 1))).getLast?
 
 /-- the 2×2 matrix `[[a, c], [b, d]]` that `_get_row_col` returns, re-embedded where the circuit
@@ -81,20 +82,20 @@ noncomputable def embedBlock (G : Mat N) (c r : Fin N) : Mat N :=
   twoLevel c r (G c c) (G c r) (G r c) (G r r)
 
 /-- a matrix with nothing but `0` below the diagonal cannot be located. -/
-theorem getRowCol_none (G : Mat N) (h : ∀ i j : Fin N, j < i → G i j = 0) : getRowCol G = none := by
+theorem getRowColOld_none (G : Mat N) (h : ∀ i j : Fin N, j < i → G i j = 0) : getRowColOld G = none := by
   classical
-  unfold getRowCol
+  unfold getRowColOld
   rw [List.getLast?_eq_none_iff, List.filter_eq_nil_iff]
   intro p hp
   have := h p.1 p.2 (mem_scanOrder.1 hp)
   simp [this]
 
-theorem getRowCol_unique (G : Mat N) {c r : Fin N} (hcr : c < r)
+theorem getRowColOld_unique (G : Mat N) {c r : Fin N} (hcr : c < r)
     (h1 : G r c ≠ 0) (h2 : G r c ≠ 1)
     (hothers : ∀ i j : Fin N, j < i → (i, j) ≠ (r, c) → G i j = 0) :
-    getRowCol G = some (r, c) := by
+    getRowColOld G = some (r, c) := by
   classical
-  unfold getRowCol
+  unfold getRowColOld
   cases hg : ((scanOrder N).filter (fun p => decide (G p.1 p.2 ≠ 0 ∧ G p.1 p.2 ≠ 1))).getLast? with
   | none =>
     rw [List.getLast?_eq_none_iff, List.filter_eq_nil_iff] at hg
@@ -117,13 +118,13 @@ theorem embedBlock_twoLevel {c r : Fin N} (hcr : c ≠ r) (p q s t : ℂ) :
 
 /-- `_get_row_col` on the matrix appended for `(col, row)`: found, at `(row, col)`, provided
 `b = gate[row, col] / norm` is neither `0` nor `1`. -/
-theorem getRowCol_factor (M : Mat N) {c r : Fin N} (hcr : c < r)
+theorem getRowColOld_factor (M : Mat N) {c r : Fin N} (hcr : c < r)
     (h0 : gB M c r ≠ 0) (h1 : gB M c r ≠ 1) :
-    getRowCol (givens M c r)ᴴ = some (r, c) ∧ embedBlock (givens M c r)ᴴ c r = (givens M c r)ᴴ := by
+    getRowColOld (givens M c r)ᴴ = some (r, c) ∧ embedBlock (givens M c r)ᴴ c r = (givens M c r)ᴴ := by
   have hne : c ≠ r := ne_of_lt hcr
   unfold givens
   rw [twoLevel_conjTranspose hne]
-  refine ⟨getRowCol_unique _ hcr ?_ ?_ ?_, embedBlock_twoLevel hne _ _ _ _⟩
+  refine ⟨getRowColOld_unique _ hcr ?_ ?_ ?_, embedBlock_twoLevel hne _ _ _ _⟩
   · rw [twoLevel_rc hne]; simpa using h0
   · rw [twoLevel_rc hne]; simpa using h1
   · intro i j hji hne2
@@ -134,22 +135,22 @@ theorem getRowCol_factor (M : Mat N) {c r : Fin N} (hcr : c < r)
     · exact absurd hji (not_lt_of_gt hcr)
 
 /-- `_get_row_col` finds nothing when every below-diagonal entry is `0` or `1`. -/
-theorem getRowCol_none' (G : Mat N) (h : ∀ i j : Fin N, j < i → G i j = 0 ∨ G i j = 1) :
-    getRowCol G = none := by
+theorem getRowColOld_none' (G : Mat N) (h : ∀ i j : Fin N, j < i → G i j = 0 ∨ G i j = 1) :
+    getRowColOld G = none := by
   classical
-  unfold getRowCol
+  unfold getRowColOld
   rw [List.getLast?_eq_none_iff, List.filter_eq_nil_iff]
   intro p hp
   rcases h p.1 p.2 (mem_scanOrder.1 hp) with h | h <;> simp [h]
 
 /-- … which is what happens to the matrix appended for `(col, row)` when `b = 0`
 (`gate[row, col] = 0` at that moment) or `b = 1`. -/
-theorem getRowCol_factor_none (M : Mat N) {c r : Fin N} (hcr : c < r)
-    (h : gB M c r = 0 ∨ gB M c r = 1) : getRowCol (givens M c r)ᴴ = none := by
+theorem getRowColOld_factor_none (M : Mat N) {c r : Fin N} (hcr : c < r)
+    (h : gB M c r = 0 ∨ gB M c r = 1) : getRowColOld (givens M c r)ᴴ = none := by
   have hne : c ≠ r := ne_of_lt hcr
   unfold givens
   rw [twoLevel_conjTranspose hne]
-  apply getRowCol_none'
+  apply getRowColOld_none'
   intro i j hji
   by_cases hrc : i = r ∧ j = c
   · obtain ⟨rfl, rfl⟩ := hrc
@@ -177,5 +178,207 @@ theorem embedBlock_diag_one (G : Mat N) (hd : ∀ i j : Fin N, i ≠ j → G i j
     (hcr : c ≠ r) (hc : G c c = 1) (hr : G r r = 1) : embedBlock G c r = 1 := by
   unfold embedBlock
   rw [hd c r hcr, hd r c hcr.symm, hc, hr, twoLevel_one]
+
+/-! ### `_get_row_col` as it is now (repair 33a8d4e): hits override the default `(N-1, N-2)`;
+without a hit the matrix must be the identity except possibly its last diagonal entry, else
+`ValueError` -/
+
+/-- `matrix[i][j]` with natural-number indices (`0` outside the matrix; never read there). -/
+def entry (G : Mat N) (i j : ℕ) : ℂ := if h : i < N ∧ j < N then G ⟨i, h.1⟩ ⟨j, h.2⟩ else 0
+
+theorem entry_fin (G : Mat N) (i j : Fin N) : entry G i.val j.val = G i j := by
+  simp [entry]
+
+theorem entry_lt (G : Mat N) {i j : ℕ} (hi : i < N) (hj : j < N) : entry G i j = G ⟨i, hi⟩ ⟨j, hj⟩ := by
+  simp [entry, hi, hj]
+
+open Classical in
+/-- `(row, col)` at the end of `_get_row_col(G, n)`, `none` = `ValueError`: the generic, executable
+search `QrLoc.getRowColG` (Model/QrLocate.lean, the function the driver runs) at `α = ℂ` with
+classical decidable equality — by definition. -/
+noncomputable def getRowCol (G : Mat N) : Option (ℕ × ℕ) := QrLoc.getRowColG N (entry G)
+
+open Classical in
+theorem getRowCol_eq_generic (G : Mat N) : getRowCol G = QrLoc.getRowColG N (entry G) := rfl
+
+/-- the 2×2 block at natural-number levels `(c, r)` re-embedded (identity if out of range). -/
+noncomputable def embedAt (G : Mat N) (c r : ℕ) : Mat N :=
+  if h : c < N ∧ r < N then embedBlock G ⟨c, h.1⟩ ⟨r, h.2⟩ else 1
+
+/-- the matrix the sub-circuit built for `G` implements: the block `_get_row_col` cuts out, on
+`|0⟩ ↔ col`, `|1⟩ ↔ row`; `none` where `_get_row_col` raises. -/
+noncomputable def codeMatrix (G : Mat N) : Option (Mat N) :=
+  (getRowCol G).map (fun p => embedAt G p.2 p.1)
+
+theorem embedAt_fin (G : Mat N) (c r : Fin N) : embedAt G c.val r.val = embedBlock G c r := by
+  simp [embedAt]
+
+/-- "identity except possibly the last diagonal entry". -/
+def IdButLast (G : Mat N) : Prop :=
+  (∀ i j : Fin N, i ≠ j → G i j = 0) ∧ (∀ i : Fin N, i.val + 1 < N → G i i = 1)
+
+open Classical in
+theorem isIdButLast_entry (G : Mat N) : QrLoc.isIdButLast N (entry G) = true ↔ IdButLast G := by
+  rw [QrLoc.isIdButLast_iff]
+  constructor
+  · intro h
+    constructor
+    · intro i j hij
+      have := h i.val j.val i.isLt j.isLt (by
+        rintro ⟨e1, e2⟩; exact hij (Fin.ext (by omega)))
+      rw [entry_fin, if_neg (fun e => hij (Fin.ext e))] at this
+      exact this
+    · intro i hi
+      have := h i.val i.val i.isLt i.isLt (by omega)
+      rw [entry_fin, if_pos rfl] at this
+      exact this
+  · rintro ⟨hd, h1⟩ i j hi hj hne
+    rw [entry_lt G hi hj]
+    by_cases e : i = j
+    · subst e
+      rw [if_pos rfl]
+      exact h1 ⟨i, hi⟩ (by simp only; omega)
+    · rw [if_neg e]
+      exact hd ⟨i, hi⟩ ⟨j, hj⟩ (fun h => e (congrArg Fin.val h))
+
+/-- nothing but `0`/`1` below the diagonal and identity-but-last: the default. -/
+theorem getRowCol_default (G : Mat N) (h : ∀ i j : Fin N, j < i → G i j = 0 ∨ G i j = 1)
+    (hid : IdButLast G) : getRowCol G = some (N - 1, N - 2) := by
+  classical
+  apply QrLoc.getRowColG_default
+  · intro r c hcr hr
+    rw [entry_lt G hr (by omega)]
+    exact h ⟨r, hr⟩ ⟨c, by omega⟩ hcr
+  · exact (isIdButLast_entry G).2 hid
+
+/-- nothing but `0`/`1` below the diagonal and NOT identity-but-last: `ValueError`. -/
+theorem getRowCol_none (G : Mat N) (h : ∀ i j : Fin N, j < i → G i j = 0 ∨ G i j = 1)
+    (hid : ¬ IdButLast G) : getRowCol G = none := by
+  classical
+  apply QrLoc.getRowColG_none
+  · intro r c hcr hr
+    rw [entry_lt G hr (by omega)]
+    exact h ⟨r, hr⟩ ⟨c, by omega⟩ hcr
+  · exact fun hh => hid ((isIdButLast_entry G).1 hh)
+
+theorem factor_lower (M : Mat N) {c r : Fin N} (hcr : c < r) (i j : Fin N) (hji : j < i)
+    (hne : ¬ (i = r ∧ j = c)) : (givens M c r)ᴴ i j = 0 := by
+  have hne' : c ≠ r := ne_of_lt hcr
+  unfold givens
+  rw [twoLevel_conjTranspose hne', twoLevel_apply]
+  have hij : i ≠ j := ne_of_gt hji
+  by_cases a1 : i = r <;> by_cases a2 : j = r <;> by_cases a3 : i = c <;> by_cases a4 : j = c <;>
+    simp_all
+  · exact absurd hji (not_lt_of_gt hcr)
+
+theorem factor_rc (M : Mat N) {c r : Fin N} (hcr : c < r) : (givens M c r)ᴴ r c = gB M c r := by
+  have hne' : c ≠ r := ne_of_lt hcr
+  unfold givens
+  rw [twoLevel_conjTranspose hne', twoLevel_rc hne']; simp
+
+theorem factor_cc (M : Mat N) {c r : Fin N} (hcr : c < r) : (givens M c r)ᴴ c c = gA M c r := by
+  have hne' : c ≠ r := ne_of_lt hcr
+  unfold givens
+  rw [twoLevel_conjTranspose hne', twoLevel_cc hne']; simp
+
+theorem factor_rr (M : Mat N) {c r : Fin N} (hcr : c < r) :
+    (givens M c r)ᴴ r r = -star (gA M c r) := by
+  have hne' : c ≠ r := ne_of_lt hcr
+  unfold givens
+  rw [twoLevel_conjTranspose hne', twoLevel_rr]; simp
+
+/-- the matrix appended for `(col, row)` is located at `(row, col)` when `b ∉ {0, 1}`. -/
+theorem getRowCol_factor (M : Mat N) {c r : Fin N} (hcr : c < r)
+    (h0 : gB M c r ≠ 0) (h1 : gB M c r ≠ 1) :
+    getRowCol (givens M c r)ᴴ = some (r.val, c.val) ∧
+    codeMatrix (givens M c r)ᴴ = some (givens M c r)ᴴ := by
+  classical
+  have hloc : getRowCol (givens M c r)ᴴ = some (r.val, c.val) := by
+    apply QrLoc.getRowColG_unique N _ (show c.val < r.val from hcr) r.isLt
+    · rw [entry_fin, factor_rc M hcr]; exact h0
+    · rw [entry_fin, factor_rc M hcr]; exact h1
+    · intro i j hji hi hne
+      left
+      rw [entry_lt _ hi (by omega)]
+      apply factor_lower M hcr ⟨i, hi⟩ ⟨j, by omega⟩ hji
+      rintro ⟨e1, e2⟩
+      apply hne
+      rw [← e1, ← e2]
+  refine ⟨hloc, ?_⟩
+  rw [codeMatrix, hloc, Option.map_some, embedAt_fin]
+  exact congrArg some (getRowColOld_factor M hcr h0 h1).2
+
+theorem factor_lower01 (M : Mat N) {c r : Fin N} (hcr : c < r)
+    (h : gB M c r = 0 ∨ gB M c r = 1) :
+    ∀ i j : Fin N, j < i → (givens M c r)ᴴ i j = 0 ∨ (givens M c r)ᴴ i j = 1 := by
+  intro i j hji
+  by_cases hrc : i = r ∧ j = c
+  · obtain ⟨rfl, rfl⟩ := hrc
+    rw [factor_rc M hcr]; exact h
+  · exact Or.inl (factor_lower M hcr i j hji hrc)
+
+/-- `b = 1`: no hit, and the entry `1` below the diagonal makes the acceptance test fail. -/
+theorem getRowCol_factor_one (M : Mat N) {c r : Fin N} (hcr : c < r) (h : gB M c r = 1) :
+    getRowCol (givens M c r)ᴴ = none := by
+  apply getRowCol_none _ (factor_lower01 M hcr (Or.inr h))
+  rintro ⟨hd, _⟩
+  have := hd r c (ne_of_gt hcr)
+  rw [factor_rc M hcr, h] at this
+  exact one_ne_zero this
+
+/-- `b = 0`: `R† = diag(…, a, …, −conj a, …)` is accepted (at the default) exactly when `a = 1` and
+`row` is the last index, i.e. when `R† = diag(1, …, 1, −1)`; otherwise `ValueError`. -/
+theorem getRowCol_factor_zero (M : Mat N) {c r : Fin N} (hcr : c < r) (h : gB M c r = 0) :
+    (gA M c r = 1 ∧ r.val + 1 = N → getRowCol (givens M c r)ᴴ = some (N - 1, N - 2)) ∧
+    (¬ (gA M c r = 1 ∧ r.val + 1 = N) → getRowCol (givens M c r)ᴴ = none) := by
+  have hne : c ≠ r := ne_of_lt hcr
+  have hlow := factor_lower01 M hcr (Or.inl h)
+  have hcN : c.val + 1 < N := by have : c.val < r.val := hcr; have := r.isLt; omega
+  constructor
+  · rintro ⟨ha, hr⟩
+    apply getRowCol_default _ hlow
+    constructor
+    · intro i j hij
+      unfold givens
+      rw [twoLevel_conjTranspose hne, twoLevel_apply, h]
+      by_cases a1 : i = r <;> by_cases a2 : j = r <;> by_cases a3 : i = c <;> by_cases a4 : j = c <;>
+        simp_all
+    · intro i hi
+      have hir : i ≠ r := fun e => by rw [e] at hi; omega
+      by_cases hic : i = c
+      · rw [hic, factor_cc M hcr, ha]
+      · unfold givens
+        rw [twoLevel_conjTranspose hne, twoLevel_outside _ _ _ _ _ _ _ _ (Or.inl ⟨hic, hir⟩)]
+        simp
+  · intro hnot
+    apply getRowCol_none _ hlow
+    rintro ⟨_, h1⟩
+    have ha : gA M c r = 1 := by rw [← factor_cc M hcr]; exact h1 c hcN
+    apply hnot
+    refine ⟨ha, ?_⟩
+    by_contra hr
+    have hrN : r.val + 1 < N := by have := r.isLt; omega
+    have := h1 r hrN
+    rw [factor_rr M hcr, ha] at this
+    norm_num at this
+
+/-- a matrix `diag(1, …, 1, z)` is accepted at the default and is its own code matrix. -/
+theorem codeMatrix_diag (hN : 2 ≤ N) (G : Mat N) (hid : IdButLast G) :
+    getRowCol G = some (N - 1, N - 2) ∧ codeMatrix G = some G := by
+  obtain ⟨hd, h1⟩ := hid
+  have hloc := getRowCol_default G (fun i j hji => Or.inl (hd i j (ne_of_gt hji))) ⟨hd, h1⟩
+  refine ⟨hloc, ?_⟩
+  rw [codeMatrix, hloc, Option.map_some]
+  have e := embedAt_fin G ⟨N - 2, by omega⟩ ⟨N - 1, by omega⟩
+  simp only at e
+  rw [e]
+  congr 1
+  apply embedBlock_diag_at G hd
+  · intro h; have := congrArg Fin.val h; simp at this; omega
+  · intro i hi
+    apply h1
+    have : i.val ≠ N - 1 := fun e => hi (Fin.ext e)
+    have := i.isLt
+    omega
 
 end Qclib.QrFull
